@@ -184,6 +184,61 @@ func GRPCAcceptServe(b *plugin.GRPCBroker, id uint32, nonce string, slow ...time
 	return h
 }
 
+// RawHandle is a brokered listener obtained with a plain Accept and served by a grpc.Server of the
+// harness. The listener is closed exactly once, whoever asks first (CloseListener or the server).
+type RawHandle struct {
+	Err  error
+	ln   net.Listener
+	srv  *grpc.Server
+	once sync.Once
+}
+
+type onceListener struct {
+	net.Listener
+	h *RawHandle
+}
+
+func (l *onceListener) Close() error { l.h.CloseListener(); return nil }
+
+// CloseListener closes the brokered listener (once).
+func (h *RawHandle) CloseListener() {
+	h.once.Do(func() {
+		if h.ln != nil {
+			h.ln.Close()
+		}
+	})
+}
+
+// CloseListenerAgain closes the brokered listener once more, whatever happened before (closing a
+// net.Listener twice is ordinary: grpc.Server.Serve closes it on return, and its owner defers a Close).
+func (h *RawHandle) CloseListenerAgain() {
+	if h.ln != nil {
+		h.ln.Close()
+	}
+}
+
+// StopServer stops the server that was serving the listener.
+func (h *RawHandle) StopServer() {
+	if h.srv != nil {
+		h.srv.Stop()
+	}
+}
+
+// GRPCAcceptRaw accepts id and serves PingPong answering "<id>/<nonce>" on the listener.
+func GRPCAcceptRaw(b *plugin.GRPCBroker, id uint32, nonce string) *RawHandle {
+	h := &RawHandle{}
+	ln, err := b.Accept(id)
+	if err != nil {
+		h.Err = err
+		return h
+	}
+	h.ln = ln
+	h.srv = grpc.NewServer()
+	grpctest.RegisterPingPongServer(h.srv, &pingPong{msg: fmt.Sprintf("%d/%s", id, nonce)})
+	go h.srv.Serve(&onceListener{Listener: ln, h: h})
+	return h
+}
+
 // DialRes is the outcome of dialling an id and making the first call.
 type DialRes struct {
 	DialErr string `json:"dialErr,omitempty"`
